@@ -457,6 +457,42 @@ func TestC01Blocks(t *testing.T) {
 				}
 			}
 		}},
+		{"columns computed by earlier Apply/Eval calls stay what they were while later ones run", func(qf qframe.QFrame) {
+			two := []qframe.Instruction{
+				{Fn: hx.Bool2, DstCol: "n", SrcCol1: "b1", SrcCol2: "b2"},
+				{Fn: hx.Int2, DstCol: "n", SrcCol1: "i1", SrcCol2: "i2"},
+				{Fn: hx.Float2, DstCol: "n", SrcCol1: "f1", SrcCol2: "f2"},
+				{Fn: hx.Str2, DstCol: "n", SrcCol1: "s1", SrcCol2: "s2"},
+				{Fn: hx.BoolToBool, DstCol: "n", SrcCol1: "b1"},
+				{Fn: hx.IntToInt, DstCol: "n", SrcCol1: "i1"},
+				{Fn: hx.FloatToStr, DstCol: "n", SrcCol1: "f1"},
+			}
+			other := []qframe.Instruction{
+				{Fn: hx.Bool2, DstCol: "m", SrcCol1: "b2", SrcCol2: "b1"},
+				{Fn: hx.Int2, DstCol: "m", SrcCol1: "i2", SrcCol2: "i1"},
+				{Fn: hx.Float2, DstCol: "m", SrcCol1: "f2", SrcCol2: "f1"},
+				{Fn: hx.Str2, DstCol: "m", SrcCol1: "s2", SrcCol2: "s1"},
+				{Fn: hx.BoolToBool, DstCol: "m", SrcCol1: "b2"},
+				{Fn: hx.IntToInt, DstCol: "m", SrcCol1: "i2"},
+				{Fn: hx.FloatToStr, DstCol: "m", SrcCol1: "f2"},
+			}
+			for i, in := range two {
+				r := qf.Apply(in)
+				if r.Err != nil {
+					panic(r.Err)
+				}
+				before := quickSnap(r.Select("id", "n"))
+				for _, o := range other {
+					_ = qf.Apply(o)
+					_ = r.Apply(o)
+				}
+				_ = qf.Eval("m", qframe.Expr("&", types.ColumnName("b2"), types.ColumnName("b1")))
+				_ = qf.Eval("m", qframe.Expr("+", types.ColumnName("i2"), types.ColumnName("i1")))
+				if quickSnap(r.Select("id", "n")) != before {
+					panic(fmt.Sprintf("VIOLATION: the column computed by an earlier Apply (instruction %d) changed while later Apply/Eval calls ran", i))
+				}
+			}
+		}},
 		{"views", func(qf qframe.QFrame) {
 			if v, err := qf.IntView("i1"); err == nil {
 				s := v.Slice()
